@@ -95,7 +95,9 @@ func Uint8(name string) uint8        { return uint8(val(name)) }
 func Byte(name string) byte          { return byte(val(name)) }
 func Float64(name string) float64    { return math.Float64frombits(val(name)) }
 func Float32(name string) float32    { return math.Float32frombits(uint32(val(name))) }
-func TimeNanos(name string) time.Time { return time.Unix(0, int64(val(name))) }
+func TimeNanos(name string) time.Time {
+	return time.Unix(0, int64(val(name))).In(time.FixedZone("VERIF", 2*3600+17*60))
+}
 
 func Choice(name string, n int) int {
 	v := cur.Choices[uname(name)]
